@@ -154,6 +154,7 @@ def gen_ops(rng: random.Random, hps: dict[str, Any],
     # loadable with compute_inverses=True ("update_a_factor() must be called
     # at least once"); such saves are outside the generated domain
     factors_exist = False
+    all_saves_full = True
     while len(ops) < n:
         r = rng.random()
         if r < extras * 0.25:
@@ -177,6 +178,7 @@ def gen_ops(rng: random.Random, hps: dict[str, Any],
                     rng.sample(range(world), rng.randint(1, world))))
             ops.append({'op': 'save', 'ranks': ranks,
                         'include_factors': inc_f})
+            all_saves_full = all_saves_full and inc_f
             have_ckpt = (m.ref.steps,
                          {k: dict(v) for k, v in m.ref.hps.items()}, inc_f)
         elif r < extras * 0.7 + restarts and have_ckpt is not None \
@@ -184,7 +186,12 @@ def gen_ops(rng: random.Random, hps: dict[str, Any],
             steps, hp_saved, inc_f = have_ckpt
             # optionally lose some work first, maybe mid-operation
             lost = rng.randint(0, 2)
-            if lost and rng.random() < 0.6:
+            mid_op_crash = lost and rng.random() < 0.6 and all_saves_full
+            if mid_op_crash:
+                # the crash may hit before the writer rank has executed the
+                # latest save, so the job may resume from ANY earlier
+                # checkpoint: only legal if every one of them is resumable
+                # anywhere (factors included, inverses recomputed)
                 ops.append({'op': 'crash_arm',
                             'events': rng.randint(1, 40)})
             for _ in range(lost):
@@ -194,7 +201,7 @@ def gen_ops(rng: random.Random, hps: dict[str, Any],
             m.ref.hps = {k: dict(v) for k, v in hp_saved.items()}
             refresh_next = m.ref.is_inv_step()
             factor_next = m.ref.is_factor_step()
-            ci = rng.random() < 0.7
+            ci = rng.random() < 0.7 or bool(mid_op_crash)
             if not inc_f:
                 if not (refresh_next and factor_next):
                     # a state without factors is only resumable on a step
